@@ -926,13 +926,21 @@ package keeper
 //@   modifies nothing
 //@   ensures[C10.contract_object] typeof(c) == type(*erc20CustomPrecompiledContract) && fresh(payload(c)) && unbox(c, type(*erc20CustomPrecompiledContract)).cacheErc20Metadata == nil && unbox(c, type(*erc20CustomPrecompiledContract)).metadata.TypedMeta == metadata.TypedMeta && unbox(c, type(*erc20CustomPrecompiledContract)).metadata.Name == metadata.Name && unbox(c, type(*erc20CustomPrecompiledContract)).keeper.storeKey == keeper.storeKey && unbox(c, type(*erc20CustomPrecompiledContract)).keeper.bankKeeper == keeper.bankKeeper
 //@   ensures[C10.eleven_methods] len(unbox(c, type(*erc20CustomPrecompiledContract)).executors) == 11
+//@   ensures[C17.erc20_object_keeps_record] unbox(c, type(*erc20CustomPrecompiledContract)) != nil && unbox(c, type(*erc20CustomPrecompiledContract)).metadata.CustomPrecompiledType == metadata.CustomPrecompiledType && bytes(unbox(c, type(*erc20CustomPrecompiledContract)).metadata.Address) == bytes(metadata.Address) && len(unbox(c, type(*erc20CustomPrecompiledContract)).metadata.Address) == len(metadata.Address) && unbox(c, type(*erc20CustomPrecompiledContract)).metadata.Disabled == metadata.Disabled && (forall j int :: (0 <= j && j < 11) ==> unbox(c, type(*erc20CustomPrecompiledContract)).executors[j] != nil)
 //@   panics never
 
 // NewCustomPrecompiledContract: a record of type 1 / 2 / 3 gives the ERC-20 / staking / bech32 contract object; any other
 // type panics (no contract object exists for an unknown type).
 //@ func NewCustomPrecompiledContract(metadata cpctypes.CustomPrecompiledContractMeta, keeper Keeper) (c CustomPrecompiledContractI)
+//@   modifies nothing
 //@   ensures[C17.contract_of_type] (metadata.CustomPrecompiledType == 1 ==> typeof(c) == type(*erc20CustomPrecompiledContract)) && (metadata.CustomPrecompiledType == 2 ==> typeof(c) == type(*stakingCustomPrecompiledContract)) && (metadata.CustomPrecompiledType == 3 ==> typeof(c) == type(*bech32CustomPrecompiledContract))
 //@   ensures[C17.known_types_only] 1 <= metadata.CustomPrecompiledType && metadata.CustomPrecompiledType <= 3
+
+//@   ensures[C17.object_keeps_record_erc20] (typeof(c) == type(*erc20CustomPrecompiledContract) ==> (unbox(c, type(*erc20CustomPrecompiledContract)) != nil && unbox(c, type(*erc20CustomPrecompiledContract)).metadata.CustomPrecompiledType == metadata.CustomPrecompiledType && bytes(unbox(c, type(*erc20CustomPrecompiledContract)).metadata.Address) == bytes(metadata.Address) && len(unbox(c, type(*erc20CustomPrecompiledContract)).metadata.Address) == len(metadata.Address) && unbox(c, type(*erc20CustomPrecompiledContract)).metadata.Name == metadata.Name && unbox(c, type(*erc20CustomPrecompiledContract)).metadata.TypedMeta == metadata.TypedMeta && unbox(c, type(*erc20CustomPrecompiledContract)).metadata.Disabled == metadata.Disabled && len(unbox(c, type(*erc20CustomPrecompiledContract)).executors) > 0 && (forall j int :: (0 <= j && j < len(unbox(c, type(*erc20CustomPrecompiledContract)).executors)) ==> unbox(c, type(*erc20CustomPrecompiledContract)).executors[j] != nil)))
+//@   ensures[C17.object_keeps_record_staking] (typeof(c) == type(*stakingCustomPrecompiledContract) ==> (unbox(c, type(*stakingCustomPrecompiledContract)) != nil && unbox(c, type(*stakingCustomPrecompiledContract)).metadata.CustomPrecompiledType == metadata.CustomPrecompiledType && bytes(unbox(c, type(*stakingCustomPrecompiledContract)).metadata.Address) == bytes(metadata.Address) && len(unbox(c, type(*stakingCustomPrecompiledContract)).metadata.Address) == len(metadata.Address) && unbox(c, type(*stakingCustomPrecompiledContract)).metadata.Name == metadata.Name && unbox(c, type(*stakingCustomPrecompiledContract)).metadata.TypedMeta == metadata.TypedMeta && unbox(c, type(*stakingCustomPrecompiledContract)).metadata.Disabled == metadata.Disabled && len(unbox(c, type(*stakingCustomPrecompiledContract)).executors) > 0 && (forall j int :: (0 <= j && j < len(unbox(c, type(*stakingCustomPrecompiledContract)).executors)) ==> unbox(c, type(*stakingCustomPrecompiledContract)).executors[j] != nil)))
+//@   ensures[C17.object_keeps_record_bech32] (typeof(c) == type(*bech32CustomPrecompiledContract) ==> (unbox(c, type(*bech32CustomPrecompiledContract)) != nil && unbox(c, type(*bech32CustomPrecompiledContract)).metadata.CustomPrecompiledType == metadata.CustomPrecompiledType && bytes(unbox(c, type(*bech32CustomPrecompiledContract)).metadata.Address) == bytes(metadata.Address) && len(unbox(c, type(*bech32CustomPrecompiledContract)).metadata.Address) == len(metadata.Address) && unbox(c, type(*bech32CustomPrecompiledContract)).metadata.Name == metadata.Name && unbox(c, type(*bech32CustomPrecompiledContract)).metadata.TypedMeta == metadata.TypedMeta && unbox(c, type(*bech32CustomPrecompiledContract)).metadata.Disabled == metadata.Disabled && len(unbox(c, type(*bech32CustomPrecompiledContract)).executors) > 0 && (forall j int :: (0 <= j && j < len(unbox(c, type(*bech32CustomPrecompiledContract)).executors)) ==> unbox(c, type(*bech32CustomPrecompiledContract)).executors[j] != nil)))
+//@   ensures c != nil && fresh(payload(c))
+//@   panics[C17.unknown_type_panics] only_if !(1 <= metadata.CustomPrecompiledType && metadata.CustomPrecompiledType <= 3)
 
 // ---------------------------------------------------------------------------------------------
 // precompiles_staking.go — read-only methods (C12 clause (b)): a method that declares ReadOnly() == true writes no
@@ -943,27 +951,28 @@ package keeper
 
 // rewardOf / rewardsOf / balanceOf read the pending rewards through the x/distribution gRPC querier, which WRITES
 // (IncrementValidatorPeriod). Clause C12.ro_distribution_unchanged is the part of "a read-only method writes nothing" that
-// concerns x/distribution: the x/distribution state of the call's own layer, and of every store layer that existed when the
-// call started, is unchanged (the only entries that may change belong to a layer created during the call and never
-// written back). It FAILS when the querier is run on the live context (finding F-cpc-2, docs/findings-cpc.md); it holds
+// concerns x/distribution: the x/distribution state of the call's own layer, and of every store layer that is not deeper
+// than it (the layer itself, all its ancestors — i.e. every layer whose content can still be committed — and their
+// siblings), is unchanged: the only entries that may change belong to a child layer created during the call and never
+// written back. It FAILS when the querier is run on the live context (finding F-cpc-2, docs/findings-cpc.md); it holds
 // when the querier runs on a cache context whose write function is dropped (fix candidate, docs/findings-cpc2.md).
 //@ func (e stakingCustomPrecompiledContractRoRewardOf) Execute(caller corevm.ContractRef, contractAddr common.Address, input []byte, env cpcExecutorEnv) (ret []byte, err error)
 //@   requires e.contract != nil
-//@   modifies distVersion, layerLive
+//@   modifies distVersion
 //@   ensures[C12.ro_world_unchanged] (bankBal == old(bankBal) && bankSupply == old(bankSupply) && authVersion == old(authVersion) && evlog == old(evlog) && kvHas == old(kvHas) && kvVal == old(kvVal) && acctSeq == old(acctSeq) && acctExists == old(acctExists) && stakingVersion == old(stakingVersion) && sdbLogCount == old(sdbLogCount) && sdbLogAddr == old(sdbLogAddr) && sdbLogNTopics == old(sdbLogNTopics) && sdbLogT0 == old(sdbLogT0) && sdbLogT1 == old(sdbLogT1) && sdbLogT2 == old(sdbLogT2) && sdbLogT3 == old(sdbLogT3) && sdbLogData == old(sdbLogData))
-//@   ensures[C12.ro_distribution_unchanged] distVersion[layer(env.ctx)] == old(distVersion[layer(env.ctx)]) && (forall l int :: old(layerLive[l]) ==> distVersion[l] == old(distVersion[l]))
+//@   ensures[C12.ro_distribution_unchanged] distVersion[layer(env.ctx)] == old(distVersion[layer(env.ctx)]) && (forall l int :: lyrDepth(l) <= lyrDepth(layer(env.ctx)) ==> distVersion[l] == old(distVersion[l]))
 
 //@ func (e stakingCustomPrecompiledContractRoRewardsOf) Execute(caller corevm.ContractRef, contractAddr common.Address, input []byte, env cpcExecutorEnv) (ret []byte, err error)
 //@   requires e.contract != nil
-//@   modifies distVersion, layerLive
+//@   modifies distVersion
 //@   ensures[C12.ro_world_unchanged] (bankBal == old(bankBal) && bankSupply == old(bankSupply) && authVersion == old(authVersion) && evlog == old(evlog) && kvHas == old(kvHas) && kvVal == old(kvVal) && acctSeq == old(acctSeq) && acctExists == old(acctExists) && stakingVersion == old(stakingVersion) && sdbLogCount == old(sdbLogCount) && sdbLogAddr == old(sdbLogAddr) && sdbLogNTopics == old(sdbLogNTopics) && sdbLogT0 == old(sdbLogT0) && sdbLogT1 == old(sdbLogT1) && sdbLogT2 == old(sdbLogT2) && sdbLogT3 == old(sdbLogT3) && sdbLogData == old(sdbLogData))
-//@   ensures[C12.ro_distribution_unchanged] distVersion[layer(env.ctx)] == old(distVersion[layer(env.ctx)]) && (forall l int :: old(layerLive[l]) ==> distVersion[l] == old(distVersion[l]))
+//@   ensures[C12.ro_distribution_unchanged] distVersion[layer(env.ctx)] == old(distVersion[layer(env.ctx)]) && (forall l int :: lyrDepth(l) <= lyrDepth(layer(env.ctx)) ==> distVersion[l] == old(distVersion[l]))
 
 //@ func (e stakingCustomPrecompiledContractRoBalanceOf) Execute(caller corevm.ContractRef, contractAddr common.Address, input []byte, env cpcExecutorEnv) (ret []byte, err error)
 //@   requires e.rewardsOf.contract != nil && e.rewardsOf.contract.keeper.bankKeeper != nil
-//@   modifies distVersion, layerLive
+//@   modifies distVersion
 //@   ensures[C12.ro_world_unchanged] (bankBal == old(bankBal) && bankSupply == old(bankSupply) && authVersion == old(authVersion) && evlog == old(evlog) && kvHas == old(kvHas) && kvVal == old(kvVal) && acctSeq == old(acctSeq) && acctExists == old(acctExists) && stakingVersion == old(stakingVersion) && sdbLogCount == old(sdbLogCount) && sdbLogAddr == old(sdbLogAddr) && sdbLogNTopics == old(sdbLogNTopics) && sdbLogT0 == old(sdbLogT0) && sdbLogT1 == old(sdbLogT1) && sdbLogT2 == old(sdbLogT2) && sdbLogT3 == old(sdbLogT3) && sdbLogData == old(sdbLogData))
-//@   ensures[C12.ro_distribution_unchanged] distVersion[layer(env.ctx)] == old(distVersion[layer(env.ctx)]) && (forall l int :: old(layerLive[l]) ==> distVersion[l] == old(distVersion[l]))
+//@   ensures[C12.ro_distribution_unchanged] distVersion[layer(env.ctx)] == old(distVersion[layer(env.ctx)]) && (forall l int :: lyrDepth(l) <= lyrDepth(layer(env.ctx)) ==> distVersion[l] == old(distVersion[l]))
 
 // the remaining read-only staking methods and the ten bech32 methods (pure computations)
 //@ func (e stakingCustomPrecompiledContractRoName) Execute(caller corevm.ContractRef, contractAddr common.Address, input []byte, env cpcExecutorEnv) (ret []byte, err error)
@@ -1031,4 +1040,81 @@ package keeper
 //@ func (e bech32CustomPrecompiledContractRoConsensusPubPrefix) Execute(caller corevm.ContractRef, contractAddr common.Address, input []byte, env cpcExecutorEnv) (ret []byte, err error)
 //@   modifies nothing
 //@   ensures[C12.ro_world_unchanged] (bankBal == old(bankBal) && bankSupply == old(bankSupply) && authVersion == old(authVersion) && evlog == old(evlog) && kvHas == old(kvHas) && kvVal == old(kvVal) && acctSeq == old(acctSeq) && acctExists == old(acctExists) && stakingVersion == old(stakingVersion) && distVersion == old(distVersion) && sdbLogCount == old(sdbLogCount) && sdbLogAddr == old(sdbLogAddr) && sdbLogNTopics == old(sdbLogNTopics) && sdbLogT0 == old(sdbLogT0) && sdbLogT1 == old(sdbLogT1) && sdbLogT2 == old(sdbLogT2) && sdbLogT3 == old(sdbLogT3) && sdbLogData == old(sdbLogData))
+
+// ---------------------------------------------------------------------------------------------
+// precompiles.go — listing the registry (C17, exposure half). The registry records are the entries of the module store
+// whose key starts with KeyPrefixCustomPrecompiledContractMeta = [2]; the store's ordered prefix iterator enumerates them
+// (prelude/48_cpc2_iterator.spec: kvSeqLen / kvSeqKey of the store's domain): record i is the value at the i-th such key.
+// GetAllCustomPrecompiledContractsMeta returns EXACTLY that list, decoded, in that order — no record skipped, none added.
+// ---------------------------------------------------------------------------------------------
+
+//@ func (k Keeper) GetAllCustomPrecompiledContractsMeta(ctx sdk.Context) (metas []cpctypes.CustomPrecompiledContractMeta)
+//@   requires k.storeKey != nil && k.cdc != nil
+//@   modifies nothing
+//@   ensures[C17.all_records_listed] len(metas) == kvSeqLen(kvHas[kvId(layer(ctx), payload(k.storeKey))], b1(2)) && (forall i int :: (0 <= i && i < len(metas)) ==> (metas[i].CustomPrecompiledType == pbMetaType(kvVal[kvId(layer(ctx), payload(k.storeKey))][kvSeqKey(kvHas[kvId(layer(ctx), payload(k.storeKey))], b1(2), i)]) && bytes(metas[i].Address) == pbMetaAddr(kvVal[kvId(layer(ctx), payload(k.storeKey))][kvSeqKey(kvHas[kvId(layer(ctx), payload(k.storeKey))], b1(2), i)]) && metas[i].Name == pbMetaName(kvVal[kvId(layer(ctx), payload(k.storeKey))][kvSeqKey(kvHas[kvId(layer(ctx), payload(k.storeKey))], b1(2), i)]) && metas[i].TypedMeta == pbMetaTyped(kvVal[kvId(layer(ctx), payload(k.storeKey))][kvSeqKey(kvHas[kvId(layer(ctx), payload(k.storeKey))], b1(2), i)]) && metas[i].Disabled == pbMetaDisabled(kvVal[kvId(layer(ctx), payload(k.storeKey))][kvSeqKey(kvHas[kvId(layer(ctx), payload(k.storeKey))], b1(2), i)])))
+//@   ensures len(metas) == 0 || fresh(base(metas))
+//@   panics only_if exists i int :: 0 <= i && i < kvSeqLen(kvHas[kvId(layer(ctx), payload(k.storeKey))], b1(2)) && !pbMetaOk(kvVal[kvId(layer(ctx), payload(k.storeKey))][kvSeqKey(kvHas[kvId(layer(ctx), payload(k.storeKey))], b1(2), i)])
+//@ loop 1
+//@   fresh_writes
+//@   invariant iterator != nil && fresh(payload(iterator)) && itKv(payload(iterator)) == kvId(layer(ctx), payload(k.storeKey)) && itPrefix(payload(iterator)) == b1(2) && 0 <= itPos[payload(iterator)] && itPos[payload(iterator)] <= kvSeqLen(kvHas[kvId(layer(ctx), payload(k.storeKey))], b1(2))
+//@   invariant len(metas) == itPos[payload(iterator)] && (cap(metas) == 0 || fresh(base(metas))) && (forall i int :: (0 <= i && i < len(metas)) ==> (metas[i].CustomPrecompiledType == pbMetaType(kvVal[kvId(layer(ctx), payload(k.storeKey))][kvSeqKey(kvHas[kvId(layer(ctx), payload(k.storeKey))], b1(2), i)]) && bytes(metas[i].Address) == pbMetaAddr(kvVal[kvId(layer(ctx), payload(k.storeKey))][kvSeqKey(kvHas[kvId(layer(ctx), payload(k.storeKey))], b1(2), i)]) && metas[i].Name == pbMetaName(kvVal[kvId(layer(ctx), payload(k.storeKey))][kvSeqKey(kvHas[kvId(layer(ctx), payload(k.storeKey))], b1(2), i)]) && metas[i].TypedMeta == pbMetaTyped(kvVal[kvId(layer(ctx), payload(k.storeKey))][kvSeqKey(kvHas[kvId(layer(ctx), payload(k.storeKey))], b1(2), i)]) && metas[i].Disabled == pbMetaDisabled(kvVal[kvId(layer(ctx), payload(k.storeKey))][kvSeqKey(kvHas[kvId(layer(ctx), payload(k.storeKey))], b1(2), i)])))
+
+// GetAllCustomPrecompiledContracts: one contract object per registry record, in the same order; object i carries record i
+// unchanged (address, type, name, typed metadata, DISABLED flag) and a non-empty list of non-nil executors.
+//@ func (k Keeper) GetAllCustomPrecompiledContracts(ctx sdk.Context) (contracts []CustomPrecompiledContractI)
+//@   requires k.storeKey != nil && k.cdc != nil
+//@   modifies nothing
+//@   ensures[C17.one_object_per_record] len(contracts) == kvSeqLen(kvHas[kvId(layer(ctx), payload(k.storeKey))], b1(2))
+//@   ensures[C17.records_of_known_type] forall i int :: (0 <= i && i < len(contracts)) ==> (1 <= pbMetaType(kvVal[kvId(layer(ctx), payload(k.storeKey))][kvSeqKey(kvHas[kvId(layer(ctx), payload(k.storeKey))], b1(2), i)]) && pbMetaType(kvVal[kvId(layer(ctx), payload(k.storeKey))][kvSeqKey(kvHas[kvId(layer(ctx), payload(k.storeKey))], b1(2), i)]) <= 3)
+//@   ensures[C17.object_type_of_record_erc20] forall i int :: (0 <= i && i < len(contracts)) ==> (pbMetaType(kvVal[kvId(layer(ctx), payload(k.storeKey))][kvSeqKey(kvHas[kvId(layer(ctx), payload(k.storeKey))], b1(2), i)]) == 1 ==> typeof(contracts[i]) == type(*erc20CustomPrecompiledContract))
+//@   ensures[C17.object_type_of_record_staking] forall i int :: (0 <= i && i < len(contracts)) ==> (pbMetaType(kvVal[kvId(layer(ctx), payload(k.storeKey))][kvSeqKey(kvHas[kvId(layer(ctx), payload(k.storeKey))], b1(2), i)]) == 2 ==> typeof(contracts[i]) == type(*stakingCustomPrecompiledContract))
+//@   ensures[C17.object_type_of_record_bech32] forall i int :: (0 <= i && i < len(contracts)) ==> (pbMetaType(kvVal[kvId(layer(ctx), payload(k.storeKey))][kvSeqKey(kvHas[kvId(layer(ctx), payload(k.storeKey))], b1(2), i)]) == 3 ==> typeof(contracts[i]) == type(*bech32CustomPrecompiledContract))
+//@   ensures[C17.object_is_record_erc20] forall i int :: (0 <= i && i < len(contracts)) ==> (typeof(contracts[i]) == type(*erc20CustomPrecompiledContract) ==> (unbox(contracts[i], type(*erc20CustomPrecompiledContract)) != nil && (unbox(contracts[i], type(*erc20CustomPrecompiledContract)).metadata.CustomPrecompiledType == pbMetaType(kvVal[kvId(layer(ctx), payload(k.storeKey))][kvSeqKey(kvHas[kvId(layer(ctx), payload(k.storeKey))], b1(2), i)]) && bytes(unbox(contracts[i], type(*erc20CustomPrecompiledContract)).metadata.Address) == pbMetaAddr(kvVal[kvId(layer(ctx), payload(k.storeKey))][kvSeqKey(kvHas[kvId(layer(ctx), payload(k.storeKey))], b1(2), i)]) && unbox(contracts[i], type(*erc20CustomPrecompiledContract)).metadata.Name == pbMetaName(kvVal[kvId(layer(ctx), payload(k.storeKey))][kvSeqKey(kvHas[kvId(layer(ctx), payload(k.storeKey))], b1(2), i)]) && unbox(contracts[i], type(*erc20CustomPrecompiledContract)).metadata.TypedMeta == pbMetaTyped(kvVal[kvId(layer(ctx), payload(k.storeKey))][kvSeqKey(kvHas[kvId(layer(ctx), payload(k.storeKey))], b1(2), i)]) && unbox(contracts[i], type(*erc20CustomPrecompiledContract)).metadata.Disabled == pbMetaDisabled(kvVal[kvId(layer(ctx), payload(k.storeKey))][kvSeqKey(kvHas[kvId(layer(ctx), payload(k.storeKey))], b1(2), i)]))))
+//@   ensures[C17.object_executors_erc20] forall i int :: (0 <= i && i < len(contracts)) ==> (typeof(contracts[i]) == type(*erc20CustomPrecompiledContract) ==> (len(unbox(contracts[i], type(*erc20CustomPrecompiledContract)).executors) > 0 && (forall j int :: (0 <= j && j < len(unbox(contracts[i], type(*erc20CustomPrecompiledContract)).executors)) ==> unbox(contracts[i], type(*erc20CustomPrecompiledContract)).executors[j] != nil)))
+//@   ensures[C17.object_is_record_staking] forall i int :: (0 <= i && i < len(contracts)) ==> (typeof(contracts[i]) == type(*stakingCustomPrecompiledContract) ==> (unbox(contracts[i], type(*stakingCustomPrecompiledContract)) != nil && (unbox(contracts[i], type(*stakingCustomPrecompiledContract)).metadata.CustomPrecompiledType == pbMetaType(kvVal[kvId(layer(ctx), payload(k.storeKey))][kvSeqKey(kvHas[kvId(layer(ctx), payload(k.storeKey))], b1(2), i)]) && bytes(unbox(contracts[i], type(*stakingCustomPrecompiledContract)).metadata.Address) == pbMetaAddr(kvVal[kvId(layer(ctx), payload(k.storeKey))][kvSeqKey(kvHas[kvId(layer(ctx), payload(k.storeKey))], b1(2), i)]) && unbox(contracts[i], type(*stakingCustomPrecompiledContract)).metadata.Name == pbMetaName(kvVal[kvId(layer(ctx), payload(k.storeKey))][kvSeqKey(kvHas[kvId(layer(ctx), payload(k.storeKey))], b1(2), i)]) && unbox(contracts[i], type(*stakingCustomPrecompiledContract)).metadata.TypedMeta == pbMetaTyped(kvVal[kvId(layer(ctx), payload(k.storeKey))][kvSeqKey(kvHas[kvId(layer(ctx), payload(k.storeKey))], b1(2), i)]) && unbox(contracts[i], type(*stakingCustomPrecompiledContract)).metadata.Disabled == pbMetaDisabled(kvVal[kvId(layer(ctx), payload(k.storeKey))][kvSeqKey(kvHas[kvId(layer(ctx), payload(k.storeKey))], b1(2), i)]))))
+//@   ensures[C17.object_executors_staking] forall i int :: (0 <= i && i < len(contracts)) ==> (typeof(contracts[i]) == type(*stakingCustomPrecompiledContract) ==> (len(unbox(contracts[i], type(*stakingCustomPrecompiledContract)).executors) > 0 && (forall j int :: (0 <= j && j < len(unbox(contracts[i], type(*stakingCustomPrecompiledContract)).executors)) ==> unbox(contracts[i], type(*stakingCustomPrecompiledContract)).executors[j] != nil)))
+//@   ensures[C17.object_is_record_bech32] forall i int :: (0 <= i && i < len(contracts)) ==> (typeof(contracts[i]) == type(*bech32CustomPrecompiledContract) ==> (unbox(contracts[i], type(*bech32CustomPrecompiledContract)) != nil && (unbox(contracts[i], type(*bech32CustomPrecompiledContract)).metadata.CustomPrecompiledType == pbMetaType(kvVal[kvId(layer(ctx), payload(k.storeKey))][kvSeqKey(kvHas[kvId(layer(ctx), payload(k.storeKey))], b1(2), i)]) && bytes(unbox(contracts[i], type(*bech32CustomPrecompiledContract)).metadata.Address) == pbMetaAddr(kvVal[kvId(layer(ctx), payload(k.storeKey))][kvSeqKey(kvHas[kvId(layer(ctx), payload(k.storeKey))], b1(2), i)]) && unbox(contracts[i], type(*bech32CustomPrecompiledContract)).metadata.Name == pbMetaName(kvVal[kvId(layer(ctx), payload(k.storeKey))][kvSeqKey(kvHas[kvId(layer(ctx), payload(k.storeKey))], b1(2), i)]) && unbox(contracts[i], type(*bech32CustomPrecompiledContract)).metadata.TypedMeta == pbMetaTyped(kvVal[kvId(layer(ctx), payload(k.storeKey))][kvSeqKey(kvHas[kvId(layer(ctx), payload(k.storeKey))], b1(2), i)]) && unbox(contracts[i], type(*bech32CustomPrecompiledContract)).metadata.Disabled == pbMetaDisabled(kvVal[kvId(layer(ctx), payload(k.storeKey))][kvSeqKey(kvHas[kvId(layer(ctx), payload(k.storeKey))], b1(2), i)]))))
+//@   ensures[C17.object_executors_bech32] forall i int :: (0 <= i && i < len(contracts)) ==> (typeof(contracts[i]) == type(*bech32CustomPrecompiledContract) ==> (len(unbox(contracts[i], type(*bech32CustomPrecompiledContract)).executors) > 0 && (forall j int :: (0 <= j && j < len(unbox(contracts[i], type(*bech32CustomPrecompiledContract)).executors)) ==> unbox(contracts[i], type(*bech32CustomPrecompiledContract)).executors[j] != nil)))
+//@   ensures cap(contracts) == 0 || fresh(base(contracts))
+//@ loop 1
+//@   fresh_writes
+//@   invariant -1 <= rangeindex && rangeindex < len(metas) && len(contracts) == rangeindex + 1 && (cap(contracts) == 0 || fresh(base(contracts)))
+//@   invariant forall i int :: (0 <= i && i <= rangeindex) ==> (1 <= pbMetaType(kvVal[kvId(layer(ctx), payload(k.storeKey))][kvSeqKey(kvHas[kvId(layer(ctx), payload(k.storeKey))], b1(2), i)]) && pbMetaType(kvVal[kvId(layer(ctx), payload(k.storeKey))][kvSeqKey(kvHas[kvId(layer(ctx), payload(k.storeKey))], b1(2), i)]) <= 3)
+//@   invariant forall i int :: (0 <= i && i <= rangeindex) ==> (pbMetaType(kvVal[kvId(layer(ctx), payload(k.storeKey))][kvSeqKey(kvHas[kvId(layer(ctx), payload(k.storeKey))], b1(2), i)]) == 1 ==> typeof(contracts[i]) == type(*erc20CustomPrecompiledContract))
+//@   invariant forall i int :: (0 <= i && i <= rangeindex) ==> (pbMetaType(kvVal[kvId(layer(ctx), payload(k.storeKey))][kvSeqKey(kvHas[kvId(layer(ctx), payload(k.storeKey))], b1(2), i)]) == 2 ==> typeof(contracts[i]) == type(*stakingCustomPrecompiledContract))
+//@   invariant forall i int :: (0 <= i && i <= rangeindex) ==> (pbMetaType(kvVal[kvId(layer(ctx), payload(k.storeKey))][kvSeqKey(kvHas[kvId(layer(ctx), payload(k.storeKey))], b1(2), i)]) == 3 ==> typeof(contracts[i]) == type(*bech32CustomPrecompiledContract))
+//@   invariant forall i int :: (0 <= i && i <= rangeindex) ==> (typeof(contracts[i]) == type(*erc20CustomPrecompiledContract) ==> (unbox(contracts[i], type(*erc20CustomPrecompiledContract)) != nil && (unbox(contracts[i], type(*erc20CustomPrecompiledContract)).metadata.CustomPrecompiledType == pbMetaType(kvVal[kvId(layer(ctx), payload(k.storeKey))][kvSeqKey(kvHas[kvId(layer(ctx), payload(k.storeKey))], b1(2), i)]) && bytes(unbox(contracts[i], type(*erc20CustomPrecompiledContract)).metadata.Address) == pbMetaAddr(kvVal[kvId(layer(ctx), payload(k.storeKey))][kvSeqKey(kvHas[kvId(layer(ctx), payload(k.storeKey))], b1(2), i)]) && unbox(contracts[i], type(*erc20CustomPrecompiledContract)).metadata.Name == pbMetaName(kvVal[kvId(layer(ctx), payload(k.storeKey))][kvSeqKey(kvHas[kvId(layer(ctx), payload(k.storeKey))], b1(2), i)]) && unbox(contracts[i], type(*erc20CustomPrecompiledContract)).metadata.TypedMeta == pbMetaTyped(kvVal[kvId(layer(ctx), payload(k.storeKey))][kvSeqKey(kvHas[kvId(layer(ctx), payload(k.storeKey))], b1(2), i)]) && unbox(contracts[i], type(*erc20CustomPrecompiledContract)).metadata.Disabled == pbMetaDisabled(kvVal[kvId(layer(ctx), payload(k.storeKey))][kvSeqKey(kvHas[kvId(layer(ctx), payload(k.storeKey))], b1(2), i)]))))
+//@   invariant forall i int :: (0 <= i && i <= rangeindex) ==> (typeof(contracts[i]) == type(*erc20CustomPrecompiledContract) ==> (len(unbox(contracts[i], type(*erc20CustomPrecompiledContract)).executors) > 0 && (forall j int :: (0 <= j && j < len(unbox(contracts[i], type(*erc20CustomPrecompiledContract)).executors)) ==> unbox(contracts[i], type(*erc20CustomPrecompiledContract)).executors[j] != nil)))
+//@   invariant forall i int :: (0 <= i && i <= rangeindex) ==> (typeof(contracts[i]) == type(*stakingCustomPrecompiledContract) ==> (unbox(contracts[i], type(*stakingCustomPrecompiledContract)) != nil && (unbox(contracts[i], type(*stakingCustomPrecompiledContract)).metadata.CustomPrecompiledType == pbMetaType(kvVal[kvId(layer(ctx), payload(k.storeKey))][kvSeqKey(kvHas[kvId(layer(ctx), payload(k.storeKey))], b1(2), i)]) && bytes(unbox(contracts[i], type(*stakingCustomPrecompiledContract)).metadata.Address) == pbMetaAddr(kvVal[kvId(layer(ctx), payload(k.storeKey))][kvSeqKey(kvHas[kvId(layer(ctx), payload(k.storeKey))], b1(2), i)]) && unbox(contracts[i], type(*stakingCustomPrecompiledContract)).metadata.Name == pbMetaName(kvVal[kvId(layer(ctx), payload(k.storeKey))][kvSeqKey(kvHas[kvId(layer(ctx), payload(k.storeKey))], b1(2), i)]) && unbox(contracts[i], type(*stakingCustomPrecompiledContract)).metadata.TypedMeta == pbMetaTyped(kvVal[kvId(layer(ctx), payload(k.storeKey))][kvSeqKey(kvHas[kvId(layer(ctx), payload(k.storeKey))], b1(2), i)]) && unbox(contracts[i], type(*stakingCustomPrecompiledContract)).metadata.Disabled == pbMetaDisabled(kvVal[kvId(layer(ctx), payload(k.storeKey))][kvSeqKey(kvHas[kvId(layer(ctx), payload(k.storeKey))], b1(2), i)]))))
+//@   invariant forall i int :: (0 <= i && i <= rangeindex) ==> (typeof(contracts[i]) == type(*stakingCustomPrecompiledContract) ==> (len(unbox(contracts[i], type(*stakingCustomPrecompiledContract)).executors) > 0 && (forall j int :: (0 <= j && j < len(unbox(contracts[i], type(*stakingCustomPrecompiledContract)).executors)) ==> unbox(contracts[i], type(*stakingCustomPrecompiledContract)).executors[j] != nil)))
+//@   invariant forall i int :: (0 <= i && i <= rangeindex) ==> (typeof(contracts[i]) == type(*bech32CustomPrecompiledContract) ==> (unbox(contracts[i], type(*bech32CustomPrecompiledContract)) != nil && (unbox(contracts[i], type(*bech32CustomPrecompiledContract)).metadata.CustomPrecompiledType == pbMetaType(kvVal[kvId(layer(ctx), payload(k.storeKey))][kvSeqKey(kvHas[kvId(layer(ctx), payload(k.storeKey))], b1(2), i)]) && bytes(unbox(contracts[i], type(*bech32CustomPrecompiledContract)).metadata.Address) == pbMetaAddr(kvVal[kvId(layer(ctx), payload(k.storeKey))][kvSeqKey(kvHas[kvId(layer(ctx), payload(k.storeKey))], b1(2), i)]) && unbox(contracts[i], type(*bech32CustomPrecompiledContract)).metadata.Name == pbMetaName(kvVal[kvId(layer(ctx), payload(k.storeKey))][kvSeqKey(kvHas[kvId(layer(ctx), payload(k.storeKey))], b1(2), i)]) && unbox(contracts[i], type(*bech32CustomPrecompiledContract)).metadata.TypedMeta == pbMetaTyped(kvVal[kvId(layer(ctx), payload(k.storeKey))][kvSeqKey(kvHas[kvId(layer(ctx), payload(k.storeKey))], b1(2), i)]) && unbox(contracts[i], type(*bech32CustomPrecompiledContract)).metadata.Disabled == pbMetaDisabled(kvVal[kvId(layer(ctx), payload(k.storeKey))][kvSeqKey(kvHas[kvId(layer(ctx), payload(k.storeKey))], b1(2), i)]))))
+//@   invariant forall i int :: (0 <= i && i <= rangeindex) ==> (typeof(contracts[i]) == type(*bech32CustomPrecompiledContract) ==> (len(unbox(contracts[i], type(*bech32CustomPrecompiledContract)).executors) > 0 && (forall j int :: (0 <= j && j < len(unbox(contracts[i], type(*bech32CustomPrecompiledContract)).executors)) ==> unbox(contracts[i], type(*bech32CustomPrecompiledContract)).executors[j] != nil)))
+
+// The accessors of the three contract objects return the stored record / executor list unchanged (value receivers: the
+// pointer-receiver wrappers share these contracts). With contracts here, a call through CustomPrecompiledContractI is
+// split over these six implementations without copying the objects.
+//@ func (m erc20CustomPrecompiledContract) GetMetadata() (meta cpctypes.CustomPrecompiledContractMeta)
+//@   modifies nothing
+//@   ensures[C17.get_metadata_erc20] meta.CustomPrecompiledType == m.metadata.CustomPrecompiledType && meta.Address == m.metadata.Address && meta.Name == m.metadata.Name && meta.TypedMeta == m.metadata.TypedMeta && meta.Disabled == m.metadata.Disabled
+//@   panics never
+//@ func (m erc20CustomPrecompiledContract) GetMethodExecutors() (execs []ExtendedCustomPrecompiledContractMethodExecutorI)
+//@   modifies nothing
+//@   ensures[C17.get_executors_erc20] execs == m.executors
+//@   panics never
+//@ func (m stakingCustomPrecompiledContract) GetMetadata() (meta cpctypes.CustomPrecompiledContractMeta)
+//@   modifies nothing
+//@   ensures[C17.get_metadata_staking] meta.CustomPrecompiledType == m.metadata.CustomPrecompiledType && meta.Address == m.metadata.Address && meta.Name == m.metadata.Name && meta.TypedMeta == m.metadata.TypedMeta && meta.Disabled == m.metadata.Disabled
+//@   panics never
+//@ func (m stakingCustomPrecompiledContract) GetMethodExecutors() (execs []ExtendedCustomPrecompiledContractMethodExecutorI)
+//@   modifies nothing
+//@   ensures[C17.get_executors_staking] execs == m.executors
+//@   panics never
+//@ func (m bech32CustomPrecompiledContract) GetMetadata() (meta cpctypes.CustomPrecompiledContractMeta)
+//@   modifies nothing
+//@   ensures[C17.get_metadata_bech32] meta.CustomPrecompiledType == m.metadata.CustomPrecompiledType && meta.Address == m.metadata.Address && meta.Name == m.metadata.Name && meta.TypedMeta == m.metadata.TypedMeta && meta.Disabled == m.metadata.Disabled
+//@   panics never
+//@ func (m bech32CustomPrecompiledContract) GetMethodExecutors() (execs []ExtendedCustomPrecompiledContractMethodExecutorI)
+//@   modifies nothing
+//@   ensures[C17.get_executors_bech32] execs == m.executors
+//@   panics never
 
